@@ -16,7 +16,7 @@ SYNTAX_PAYLOAD = list("|;])}⟩Xxv⁽&~ßƒɖ₌‡₍≬[({λƛ'µ⟨@")
 
 class ProgGen:
     def __init__(self, rng, elements=None, with_break=True, with_functions=True, with_modifiers=True,
-                 payload_chars=None, max_items=3):
+                 payload_chars=None, max_items=3, with_while=True):
         self.rng = rng
         self.elements = elements or CORE_ELEMENTS
         self.with_break = with_break
@@ -24,6 +24,7 @@ class ProgGen:
         self.with_modifiers = with_modifiers
         self.payload_chars = payload_chars or (list("abz019 ") + SYNTAX_PAYLOAD)
         self.max_items = max_items
+        self.with_while = with_while
 
     # -- literals -------------------------------------------------------------
     def payload(self, n, forbid=""):
@@ -114,6 +115,8 @@ class ProgGen:
             if r.random() < 0.3:
                 out += [(r.choice(["i", "ab", "_x"]), CODE), ("|", CODE)]
             return out + b() + [(")", CLOSER)]
+        if k == 2 and not self.with_while:
+            k = 1
         if k == 2:
             out = [("{", CODE)]
             if r.random() < 0.6:
